@@ -6,6 +6,7 @@ data flow dependencies.
 
 from __future__ import annotations
 
+import contextlib
 from collections.abc import Callable
 from typing import TYPE_CHECKING
 
@@ -100,6 +101,19 @@ def _set_new_run_connections_with_fallback_recovery(
     (if wiring new connections works) / that these broken connections get re-instated
     (if an error is encountered).
     """
+    # Re-connecting the broken pairs would prepend them, i.e. shuffle priorities, and
+    # would leave half of the new wiring behind; remember the lists themselves
+    saved_connections: dict[int, tuple] = {}
+    for node in nodes.values():
+        to_cut = [node.signals.output.ran]
+        for label in ("run", "accumulate_and_run"):
+            with contextlib.suppress(AttributeError):
+                to_cut.append(node.signals.input[label])
+        for channel in to_cut:
+            for c in (channel, *channel.connections):
+                if id(c) not in saved_connections:
+                    saved_connections[id(c)] = (c, list(c.connections))
+
     disconnected_pairs = []
     for node in nodes.values():
         disconnected_pairs.extend(node.signals.disconnect_run())
@@ -109,8 +123,8 @@ def _set_new_run_connections_with_fallback_recovery(
         return disconnected_pairs, connection_creator(nodes)
     except Exception as e:
         # Restore whatever you broke
-        for c1, c2 in disconnected_pairs:
-            c1.connect(c2)
+        for channel, connections in saved_connections.values():
+            channel.connections = connections
         raise e
 
 
